@@ -162,6 +162,9 @@ class NixList(TypedExpression):
         """Offer a safe inline preview for callers that need compact output."""
         if self.multiline:
             return None
+        if self.has_scope():
+            # the preview would drop the `let ... in` layers wrapped around the list
+            return None
         if self.before or self.after or self.inner_trivia:
             return None
         if len(self.value) > 1:
